@@ -11,6 +11,7 @@ package rel
 
 import (
 	"bytes"
+	"context"
 	"encoding/json"
 	"fmt"
 	"os"
@@ -20,6 +21,7 @@ import (
 	"sort"
 	"strings"
 	"testing"
+	"time"
 
 	"github.com/tucats/ego/internal/verifh/egorun"
 	"github.com/tucats/ego/internal/verifh/vh"
@@ -205,7 +207,7 @@ func TestC12(t *testing.T) {
 		if rc.Kind == "corpus" {
 			c12Corpus(r, []string{rc.Rel}, cfg)
 		} else if rc.Kind == "program" {
-			c12Programs(t, r, []progCase{{ID: rc.ID, Key: rc.Key, Src: rc.Src, Origin: "replay"}}, cfg, avoid)
+			c12Guarded(t, r, []progCase{{ID: rc.ID, Key: rc.Key, Src: rc.Src, Origin: "replay"}})
 		}
 
 		r.Distinct += 2
@@ -226,8 +228,14 @@ func TestC12(t *testing.T) {
 		// but some of them end the program at its first statement; keep them out
 		// while (debugger x try) is a listed finding, two programs in three are written
 		// without try so that the debugger still gets a full stream
-		p := newProgram(rng, gOpts{Avoid: c02, NoTry: avoid[keyDebugTry] && i%3 != 0})
+		p := newProgram(rng, gOpts{Avoid: c02, NoTry: avoid[keyDebugTry] && i%3 != 0, Concurrency: true})
 		programs = append(programs, progCase{ID: fmt.Sprintf("mygen/%d", i), Src: p.Src, Origin: "mygen", Features: p.Features})
+
+		for _, f := range p.Features {
+			if strings.HasPrefix(f, "concurrency:") {
+				r.Count("feature."+f, 1)
+			}
+		}
 	}
 
 	for i, p := range sharedPrograms(rng, vh.N(80, 4000), false, union(avoid, only(c02, keyBreakInSwitch, keyContinueInSwitchInit, keyContinueInSwitchTagless))) {
@@ -235,7 +243,9 @@ func TestC12(t *testing.T) {
 		programs = append(programs, p)
 	}
 
-	c12Programs(t, r, programs, cfg, avoid)
+	// the mode runs happen in a worker process that this one can kill: a mode under
+	// which a program never finishes is a difference in outcome, not a watchdog case
+	c12Guarded(t, r, programs)
 
 	files, _ := corpusFiles(t)
 	nf := vh.N(18, len(files))
@@ -263,9 +273,23 @@ func TestC12(t *testing.T) {
 	}
 }
 
+// c12Hook, when set (worker process), is told which run starts next and how long the
+// plain run of the program took, so that the parent can tell a hang from a slow run.
+// c12OnlyMode, when not empty, restricts the mode runs to that mode (confirmation run).
+var (
+	c12Hook     func(index int, mode string, plainDur time.Duration)
+	c12OnlyMode string
+)
+
 func c12Programs(t *testing.T, r *vh.Report, programs []progCase, cfg egorun.Config, avoid map[string]bool) {
-	for _, p := range programs {
+	for pi, p := range programs {
+		if c12Hook != nil {
+			c12Hook(pi, "plain", 0)
+		}
+
+		t0 := time.Now() // watchdog only: feeds the hang bound, never an oracle
 		plain := outcomeOf(RunProg(p.Src, cfg, diagNone))
+		plainDur := time.Since(t0)
 		again := outcomeOf(RunProg(p.Src, cfg, diagNone))
 		r.Count("runs.plain", 2)
 
@@ -301,6 +325,14 @@ func c12Programs(t *testing.T, r *vh.Report, programs []progCase, cfg egorun.Con
 				r.Count("skipped.debug-x-unhandled-panic.known-finding", 1)
 
 				continue
+			}
+
+			if c12OnlyMode != "" && d.String() != c12OnlyMode {
+				continue
+			}
+
+			if c12Hook != nil {
+				c12Hook(pi, d.String(), plainDur)
 			}
 
 			got := outcomeOf(RunProg(p.Src, cfg, d))
@@ -458,8 +490,28 @@ type cliRun struct {
 	code        int
 }
 
+// cliBound is the watchdog of the next runEgo call (0 = two minutes); lastCLIDur is
+// how long the last call took; a call that exceeds its bound is killed and returns
+// code -2 (see the hang rule in c12hang_test.go).
+var (
+	cliBound   time.Duration
+	lastCLIDur time.Duration
+)
+
+const cliHung = -2
+
 func runEgo(bin, home, dir string, stdin string, args ...string) cliRun {
-	cmd := exec.Command(bin, args...)
+	bound := cliBound
+	if bound == 0 {
+		bound = plainHangBound
+	}
+
+	cliBound = 0
+
+	ctx, cancel := context.WithTimeout(context.Background(), bound)
+	defer cancel()
+
+	cmd := exec.CommandContext(ctx, bin, args...)
 	cmd.Dir = dir
 	cmd.Env = append(os.Environ(), "HOME="+home, "EGO_PATH="+egoSrcRoot, "EGO_LOG_FORMAT=text")
 	cmd.Stdin = strings.NewReader(stdin)
@@ -467,7 +519,15 @@ func runEgo(bin, home, dir string, stdin string, args ...string) cliRun {
 	var so, se bytes.Buffer
 
 	cmd.Stdout, cmd.Stderr = &so, &se
+
+	t0 := time.Now()
 	err := cmd.Run()
+	lastCLIDur = time.Since(t0)
+
+	if ctx.Err() != nil {
+		return cliRun{out: so.String(), errOut: "VERIF-HANG", code: cliHung}
+	}
+
 	code := 0
 
 	if ee, ok := err.(*exec.ExitError); ok {
@@ -522,12 +582,12 @@ func TestC12CLI(t *testing.T) {
 		programs = append(programs, p)
 	}
 
-	for i := 0; i < vh.N(5, 150); i++ {
-		p := newProgram(rng, gOpts{Avoid: c02, MaxStmts: 8})
+	for i := 0; i < vh.N(4, 150); i++ {
+		p := newProgram(rng, gOpts{Avoid: c02, MaxStmts: 8, Concurrency: true})
 		programs = append(programs, progCase{ID: fmt.Sprintf("mygen/%d", i), Src: p.Src, Origin: "mygen"})
 	}
 
-	for i, p := range sharedPrograms(rng, vh.N(3, 100), false, union(avoid, only(c02, keyBreakInSwitch, keyContinueInSwitchInit, keyContinueInSwitchTagless))) {
+	for i, p := range sharedPrograms(rng, vh.N(2, 100), false, union(avoid, only(c02, keyBreakInSwitch, keyContinueInSwitchInit, keyContinueInSwitchTagless))) {
 		p.ID = fmt.Sprintf("gen/%d", i)
 		programs = append(programs, p)
 	}
@@ -543,8 +603,20 @@ func TestC12CLI(t *testing.T) {
 		_ = os.WriteFile(filepath.Join(pdir, file), []byte(p.Src), 0o644)
 
 		plain := runEgo(bin, home, pdir, "", "run", file)
+		plainDur := lastCLIDur
 		plain2 := runEgo(bin, home, pdir, "", "run", file)
 		r.Count("cli.runs", 2)
+
+		if plain.code == cliHung || plain2.code == cliHung {
+			r.Count("dropped.plain-run-over-bound", 1)
+
+			continue
+		}
+
+		modeBound := plainDur * hangFactor
+		if modeBound < hangFloor {
+			modeBound = hangFloor
+		}
 
 		if plain != plain2 {
 			r.Count("dropped.self-flaky", 1)
@@ -595,9 +667,41 @@ func TestC12CLI(t *testing.T) {
 				continue
 			}
 
+			cliBound = modeBound
 			got := runEgo(bin, home, pdir, v.stdin, v.args...)
 			r.Count("cli.runs", 1)
 			r.Count("cli.runs."+v.name, 1)
+
+			if got.code == cliHung {
+				// the hang rule: once more, alone, next to a fresh plain run
+				r.Count("watchdog.fired."+v.name, 1)
+
+				again := runEgo(bin, home, pdir, "", "run", file)
+				cliBound = modeBound
+				got = runEgo(bin, home, pdir, v.stdin, v.args...)
+				r.Count("cli.runs", 2)
+
+				if got.code == cliHung && again.code != cliHung {
+					r.Eval(vh.Hash(p.Src, "cli", v.name, "hang"), true)
+					r.Violate(vh.Violation{
+						Key:      "diag:" + v.name + ":hang",
+						Desc:     fmt.Sprintf("`ego %s` does not finish for %s: `ego run` took %v, the %s run was still going after %v twice (killed)", strings.Join(v.args, " "), p.ID, plainDur, v.name, modeBound),
+						Case:     map[string]any{"kind": "cli", "id": p.ID, "key": p.Key, "src": p.Src, "mode": v.name},
+						Expected: "finishes like the plain run",
+						Observed: "still running after the bound, twice",
+					})
+
+					continue
+				}
+
+				if got.code == cliHung {
+					r.Count("dropped.plain-run-over-bound", 1)
+
+					continue
+				}
+
+				r.Count("watchdog.not-reproduced."+v.name, 1)
+			}
 
 			raw := got.out
 			cleaned := v.clean(raw)
